@@ -291,6 +291,19 @@ def _eval_chunk(args):
     return out
 
 
+def _limit_worker_memory():
+    """A mutated implementation can allocate without bound (seen: 60 GB); cap each worker's address space so that
+    it fails with MemoryError (reported as an exception of the case) instead of taking the machine down."""
+    try:
+        import resource
+        cap = int(os.environ.get("VERIF_WORKER_MEM_GB", "10")) << 30
+        soft, hard = resource.getrlimit(resource.RLIMIT_AS)
+        if hard == resource.RLIM_INFINITY or cap < hard:
+            resource.setrlimit(resource.RLIMIT_AS, (cap, hard))
+    except Exception:
+        pass
+
+
 def evaluate(modname, cases, jobs, case_timeout):
     """Run impl+oracle over all cases (in parallel for big runs)."""
     indexed = list(enumerate(cases))
@@ -298,7 +311,7 @@ def evaluate(modname, cases, jobs, case_timeout):
         return _eval_chunk((modname, indexed, case_timeout))
     n = jobs * 4
     chunks = [indexed[i::n] for i in range(n)]
-    with multiprocessing.get_context("fork").Pool(jobs) as pool:
+    with multiprocessing.get_context("fork").Pool(jobs, initializer=_limit_worker_memory) as pool:
         parts = pool.map(_eval_chunk, [(modname, c, case_timeout) for c in chunks if c])
     out = [r for part in parts for r in part]
     out.sort(key=lambda r: r[0])
